@@ -470,9 +470,9 @@ end SolveReach
 /-! ## 6. conditioning on the row of a Player-1 state -/
 
 section Cond
-variable {α : Type} [Add α] [Sub α] [Div α] [BEq α] [OfNat α 0] [OfNat α 1]
+variable {α : Type} [Add α] [Div α] [BEq α] [OfNat α 0]
 
-omit [Add α] [Sub α] [Div α] [BEq α] [OfNat α 0] [OfNat α 1] in
+omit [Add α] [Div α] [BEq α] [OfNat α 0] in
 theorem pruneReachability_getD_p1 (owners : Array Owner) (strat : Array Strat)
     (nodes : Array (List (Tr α))) (s : Nat) (hp : owners.getD s .prob = .p1) :
     (pruneReachability owners strat nodes).getD s [] =
@@ -497,7 +497,7 @@ theorem prunePaths_getD_p1 {owners : Array Owner} {reach : Array α}
     have h2 : nodes.getD s [] = [] := by simp [Array.getD, hs]
     rw [h1, h2]; rfl
 
-omit [Add α] [Sub α] [Div α] [BEq α] [OfNat α 0] [OfNat α 1] in
+omit [Add α] [Div α] [BEq α] [OfNat α 0] in
 theorem pruneStatesRound_getD_p1 (owners : Array Owner) (nodes : Array (List (Tr α))) (s : Nat)
     (hp : owners.getD s .prob = .p1) :
     (pruneStatesRound owners nodes).1.getD s [] = nodes.getD s [] := by
@@ -506,7 +506,7 @@ theorem pruneStatesRound_getD_p1 (owners : Array Owner) (nodes : Array (List (Tr
   rw [getD_mapIdx _ _ _ [] [] (by simp)]
   simp [hp]
 
-omit [Add α] [Sub α] [Div α] [BEq α] [OfNat α 0] [OfNat α 1] in
+omit [Add α] [Div α] [BEq α] [OfNat α 0] in
 theorem pruneStates_getD_p1 (owners : Array Owner) (s : Nat) (hp : owners.getD s .prob = .p1) :
     ∀ (fuel : Nat) (prev : List Nat) (nodes out : Array (List (Tr α))),
       pruneStates owners fuel prev nodes = .ok out → out.getD s [] = nodes.getD s [] := by
